@@ -53,6 +53,7 @@ type Exec struct {
 	aim       *Clause
 	origins   map[int]*epochOrigin // aim mode: where the heaps of an epoch came from
 	heapTypes map[string]types.Type
+	iterSelf  *iterSelf // the function under verification is itself an iterator whose body is proved (not assumed)
 	curMod    *aimMod
 	aimAlt    []string
 	frames    []*Frame
